@@ -560,7 +560,7 @@ func ruleC12PrefixRewrite(c *Ctx) {
 		allowed := map[string]bool{"path.Join": true, "path/filepath.Join": true, "strings.TrimPrefix": true, "strings.CutPrefix": true}
 		var foreign []string
 		usesOld := false
-		ast.Inspect(store.Rhs[0], func(n ast.Node) bool {
+		inspectThrough(f, store.Rhs[0], func(n ast.Node) bool {
 			if call, ok := n.(*ast.CallExpr); ok {
 				if fn, ok := calleeObj(info, call).(*types.Func); ok && fn.Pkg() != nil {
 					full := fn.Pkg().Path() + "." + fn.Name()
@@ -574,7 +574,7 @@ func ruleC12PrefixRewrite(c *Ctx) {
 			}
 			return true
 		})
-		good := len(foreign) == 0 && usesOld && usesObj(info, store.Rhs[0], from) && usesObj(info, store.Rhs[0], to)
+		good := len(foreign) == 0 && usesOld && usesObjThrough(f, store.Rhs[0], from) && usesObjThrough(f, store.Rhs[0], to)
 		c.verdictIf(good, rule, f, "new name", store.Pos(), "new name = Join(to, old name with the source prefix trimmed): only the leading occurrence of the source path is replaced",
 			"the new name of a moved entry is not computed by trimming the source *prefix* and joining the destination (calls: "+strings.Join(foreign, ", ")+"): other occurrences of the source path inside descendant names get rewritten or lost")
 	}
@@ -2078,7 +2078,7 @@ func flattenSQL(f *FuncInfo, e ast.Expr, depth int) []sqlPiece {
 		if isPkgFunc(calleeObj(info, x), "fmt", "Sprintf") && len(x.Args) >= 1 {
 			if format, ok := constString(info, x.Args[0]); ok {
 				var out []sqlPiece
-				parts := strings.Split(format, "%v")
+				parts := strings.Split(strings.ReplaceAll(format, "%s", "%v"), "%v")
 				for i, p := range parts {
 					out = append(out, sqlPiece{lit: p})
 					if i < len(parts)-1 && i+1 < len(x.Args) {
@@ -3136,11 +3136,11 @@ func ruleC12PrefixNormalised(c *Ctx) {
 			return
 		}
 		// the trim of the source path off a stored name
-		if !usesObj(info, call.Args[1], from) {
+		if !usesObjThrough(f, call.Args[1], from) {
 			return
 		}
 		mentionsName := false
-		ast.Inspect(call.Args[0], func(m ast.Node) bool {
+		inspectThrough(f, call.Args[0], func(m ast.Node) bool {
 			if se, ok := m.(*ast.SelectorExpr); ok && se.Sel.Name == "Name" {
 				mentionsName = true
 			}
@@ -3151,6 +3151,9 @@ func ruleC12PrefixNormalised(c *Ctx) {
 		}
 		n++
 		norm := func(e ast.Expr) bool {
+			if d := localDef(f, e); d != nil {
+				e = d // an explaining local
+			}
 			in, ok := ast.Unparen(e).(*ast.CallExpr)
 			if !ok || !isPkgFunc(calleeObj(info, in), "strings", "TrimPrefix") || len(in.Args) != 2 {
 				return false
@@ -3223,8 +3226,9 @@ func ruleC17TrailingSlashRetry(c *Ctx) {
 			if cs.Callee != types.Object(im) || len(cs.Call.Args) != 2 {
 				continue
 			}
-			txt := exprString(cs.Call.Args[1])
-			if strings.Contains(txt, `+ "/"`) {
+			// the looked-up name ends in a literal "/" (concatenation or Sprintf, directly or through a local)
+			pieces := flattenSQL(f, cs.Call.Args[1], 0)
+			if n := len(pieces); n > 0 && pieces[n-1].expr == nil && strings.HasSuffix(pieces[n-1].lit, "/") {
 				slashed++
 			} else {
 				plain++
